@@ -147,6 +147,7 @@ type Gen struct {
 	modelVars   []string
 	specTypes   map[string]types.Type
 	refRange    map[string][2]string
+	constFacts  map[string]string // opaque string constant id -> length/byte facts
 	axioms      map[string]string // opaque spec function symbol -> definitional axiom
 	splitCallee string
 	splitVal    string
@@ -546,7 +547,21 @@ func smtInt(c constant.Value) string {
 
 func (g *Gen) strConst(s string) Val {
 	if g.opaqueStr {
-		return Val{T: strID(s), Kind: "int"}
+		id := strID(s)
+		// facts about the constant: its length and bytes (emitted with every VC that mentions strlen/strbyte)
+		if g.constFacts == nil {
+			g.constFacts = map[string]string{}
+		}
+		if _, ok := g.constFacts[id]; !ok {
+			fact := fmt.Sprintf("(= (%s %s) %d)", g.uf("strlen", 1, "Int"), id, len(s))
+			if len(s) <= 8 {
+				for i := 0; i < len(s); i++ {
+					fact = fmt.Sprintf("(and %s (= (%s %s %d) %d))", fact, g.uf("strbyte", 2, "Int"), id, i, s[i])
+				}
+			}
+			g.constFacts[id] = fact
+		}
+		return Val{T: id, Kind: "int"}
 	}
 	a := emptyAr
 	for i := 0; i < len(s); i++ {
